@@ -237,6 +237,9 @@ func main() {
 		}
 		for _, h := range u.newHelpers {
 			msg := fmt.Sprintf("calls %s, a function that is new since the baseline, has no contract and can not be inlined (loops): the unit can not be decided until it gets one", h)
+			if strings.HasPrefix(h, "method ") {
+				msg = fmt.Sprintf("%s: library code may call it through an optional interface and no contract describes it, the unit can not be decided", h)
+			}
 			if strings.HasPrefix(h, "package variable ") {
 				msg = fmt.Sprintf("reads %s, which is new since the baseline: nothing specifies what it holds, the unit can not be decided", h)
 			}
@@ -576,6 +579,16 @@ func main() {
 		}
 		claimed++
 		if l.OK {
+			// a unit that calls code no contract describes (a helper, package variable or method that is new since
+			// the baseline) proves its obligations over an unconstrained stand-in for that code: the proof says
+			// nothing about what the new code does. Where a replay is registered for the obligation it is run on the
+			// real code and decides.
+			if why, isStale := staleUnits[unitOf(n)]; isStale && (strings.HasPrefix(why, "calls ") || strings.HasPrefix(why, "reads ") || strings.HasPrefix(why, "method ")) {
+				if v, ok := replayStale(n); ok {
+					violations = append(violations, v)
+					continue
+				}
+			}
 			discharged++
 			if len(samples) < 12 {
 				samples = append(samples, map[string]interface{}{"obligation": n, "kind": l.Kind, "at": l.Pos, "clause": l.Info, "solver": l.Solver, "ms": l.Ms, "paths": len(l.Subs)})
@@ -641,6 +654,12 @@ func main() {
 			// gone (rewritten, e.g. s[a:len(s)] as s[a:]) there is nothing left to guard - the new
 			// expression carries its own obligation
 			if isSafetyName(n) || isFrameName(n) {
+				continue
+			}
+			// the precondition of a callee at a call site that no longer exists (the call moved into a helper, or
+			// goes through an interface now): nothing is left to show at that site; what the contract demands OF
+			// calls is carried by its oncall / ensures clauses, which are checked wherever the call is
+			if strings.Contains(n, "/pre:") {
 				continue
 			}
 			replaced := false
@@ -798,6 +817,15 @@ func main() {
 		cleanup()
 		os.Exit(1)
 	}
+}
+
+// unitOf: the unit part of an obligation name ("Func/lit1/ensures#1" -> "Func"; literal units are looked up by their
+// own name first by the callers that need them)
+func unitOf(n string) string {
+	if i := strings.Index(n, "/"); i > 0 {
+		return n[:i]
+	}
+	return n
 }
 
 // sweepWorkDirs removes the scratch directories (gocv-<property>-<pid>) of earlier runs whose process is gone: a run
